@@ -65,7 +65,7 @@ def run(ctx, chk):
              floor=2)
     chk.rule('C03.2', 'D', 'translation reads the same bytes the interpreter would fetch: get_executable_memory_segment = '
              'get_executable_memory_slice on ROM', floor=2)
-    chk.rule('C03.3', 'D', 'only never-written memory is cached: can_dynarec accepts exactly ROM addresses and blocks are '
+    chk.rule('C03.3', 'D', 'only never-written memory is cached: can_dynarec accepts ROM addresses only and blocks are '
              'inserted only under that guard', floor=2)
     chk.rule('C03.4', 'D', 'insert and lookup use the same injective key function (bank << 16 | address)', floor=2)
     chk.rule('C03.5', 'D', 'a translated block does not extend past the end of the region its key belongs to', floor=1)
@@ -206,12 +206,32 @@ def run(ctx, chk):
     ipc = absint.Interp(facts)
     a = S(64, 'addr')
     rr = ipc.run('mem::can_dynarec', [a])
-    okk = len(rr) == 1 and rr[0].status == 'ok' and rr[0].ret == O(1, 'ult', a, C(64, 0x8000))
-    if okk:
-        chk.ok('C03.3', 'can_dynarec', sample={'can_dynarec': 'addr < 0x8000'})
+    # every accepted address is a ROM address (anything at or above 0x8000 is writable by the guest and is never
+    # invalidated in the cache); decided bit-precisely so that masks in the predicate are understood
+    from .. import bvproof
+    from ..bdd import BV, Unsupported
+    outside = None
+    accepted = 0
+    try:
+        for r in rr:
+            if r.status != 'ok' or r.ret is None:
+                outside = 'can_dynarec does not return on some path'
+                continue
+            m, conv, K = bvproof.setup(r.state.env)
+            acc = m.AND(K, conv(r.ret).b[0])
+            if acc != 0:
+                accepted += 1
+            x = conv(a)
+            D = m.AND(acc, m.NOT(x.ult(BV.const(m, 64, 0x8000))))
+            if D != 0:
+                outside = 'can_dynarec accepts address %#x, which is not in ROM' % m.witness(D).get('addr', 0)
+    except Unsupported as e:
+        chk.error('C03.3: can_dynarec is outside the bit-vector fragment: %s' % e.why)
+    if outside is None and accepted:
+        chk.ok('C03.3', 'can_dynarec', sample={'can_dynarec': [fmt(r.ret) for r in rr], 'accepted set': 'subset of 0..0x7fff'})
     else:
-        chk.fail('C03.3', 'can_dynarec', 'can_dynarec is %s, expected addr < 0x8000 (ROM only)'
-                 % [fmt(r.ret) for r in rr], 'src/mem.rs', None)
+        chk.fail('C03.3', 'can_dynarec', '%s (predicate: %s)' % (outside or 'can_dynarec accepts nothing',
+                                                                  [fmt(r.ret) for r in rr]), 'src/mem.rs', None)
     callers_t = sorted(set(c[0] for c in prog.callers(TCB)))
     callers_i = sorted(set(c[0] for c in prog.callers(ICB)))
     guard_ok = callers_t == [RCB] and callers_i == [TCB]
